@@ -248,6 +248,7 @@ func (root *Root) regField(obj *Object, fd *FieldDef, goField string, args ...st
 			return strings.EqualFold(name, goField) && token.IsExported(name)
 		}); ok {
 			fd.goField = field.Name
+			fd.method = nil
 			if 0 < len(args) {
 				err = fmt.Errorf("%w: field %s on %s does not have argument", ErrMeta, goField, meta)
 			}
@@ -269,6 +270,9 @@ func (root *Root) regField(obj *Object, fd *FieldDef, goField string, args ...st
 		}
 	}
 	if fd.method != nil {
+		// A field bound earlier, by a request or an earlier registration,
+		// does not hide the method.
+		fd.goField = ""
 		if 0 < len(args) {
 			if fd.args.Len() != len(args) {
 				return fmt.Errorf("%w: not enough arguments for field %s of %s", ErrMeta, goField, objMeta)
